@@ -12,11 +12,14 @@
 (* change of the registry, of R or of the number of observations).         *)
 (*                                                                         *)
 (* Generator with code c returns for observation u (0-based), draw r       *)
-(* (0-based):  c + ((2u + r) mod 5).                                       *)
+(* (0-based):  c + ((2u + r) mod 5).  A generator may also hand back its   *)
+(* table in the WRONG layout (draws x observations): the library must      *)
+(* refuse it -- unless both dimensions are equal, where the layouts cannot *)
+(* be told apart and the table is read as it is.                           *)
 (***************************************************************************)
 EXTENDS Integers, Sequences, FiniteSets, TLC, Json
 
-CONSTANTS Types, Codes, Rs, XVals, MaxSteps
+CONSTANTS Types, Codes, Layouts, Rs, XVals, MaxSteps
 
 VARIABLES reg, hist, done
 vars == <<reg, hist, done>>
@@ -27,28 +30,34 @@ RECURSIVE SumTo(_, _, _)
 SumTo(c, u, r) == IF r = 0 THEN 0 ELSE Gen(c, u, r - 1) + SumTo(c, u, r - 1)
 \* R times the value for observation u (1-based): sum over the draws of z * x
 Value(c, u, R) == SumTo(c, u - 1, R) * XVals[u]
+\* the same when a square table is handed back transposed: entry [u][r] holds what was meant for [r][u]
+RECURSIVE SumToT(_, _, _)
+SumToT(c, u, r) == IF r = 0 THEN 0 ELSE Gen(c, r - 1, u) + SumToT(c, u, r - 1)
+ValueT(c, u, R) == SumToT(c, u - 1, R) * XVals[u]
 
-Init == reg \in [Types -> Codes] /\ hist = << >> /\ done = FALSE
+Init == reg \in [Types -> [code : Codes, lay : {"rows"}]] /\ hist = << >> /\ done = FALSE
 Going == ~done /\ Len(hist) < MaxSteps
-Register(t, c) == /\ Going /\ reg[t] # c
-                  /\ reg' = [reg EXCEPT ![t] = c]
-                  /\ hist' = Append(hist, [op |-> "register", type |-> t, code |-> c, R |-> 0, want |-> << >>])
+Register(t, c, lay) == /\ Going /\ reg[t] # [code |-> c, lay |-> lay]
+                  /\ reg' = [reg EXCEPT ![t] = [code |-> c, lay |-> lay]]
+                  /\ hist' = Append(hist, [op |-> "register", type |-> t, code |-> c, lay |-> lay, R |-> 0, refused |-> FALSE, want |-> << >>])
                   /\ UNCHANGED done
 Evaluate(t, R) == /\ Going
-                  /\ hist' = Append(hist, [op |-> "evaluate", type |-> t, code |-> reg[t], R |-> R,
-                                           want |-> [u \in 1..N |-> Value(reg[t], u, R)]])
+                  /\ hist' = Append(hist, [op |-> "evaluate", type |-> t, code |-> reg[t].code, lay |-> reg[t].lay, R |-> R,
+                                           refused |-> reg[t].lay = "transposed" /\ R # N,
+                                           want |-> IF reg[t].lay = "transposed" /\ R # N THEN << >>
+                                                    ELSE IF reg[t].lay = "transposed" THEN [u \in 1..N |-> ValueT(reg[t].code, u, R)]
+                                                    ELSE [u \in 1..N |-> Value(reg[t].code, u, R)]])
                   /\ UNCHANGED <<reg, done>>
 Finish == ~done /\ Len(hist) = MaxSteps /\ done' = TRUE /\ UNCHANGED <<reg, hist>>
-Next == (\E t \in Types, c \in Codes : Register(t, c)) \/ (\E t \in Types, R \in Rs : Evaluate(t, R)) \/ Finish
+Next == (\E t \in Types, c \in Codes, lay \in Layouts : Register(t, c, lay)) \/ (\E t \in Types, R \in Rs : Evaluate(t, R)) \/ Finish
 Spec == Init /\ [][Next]_vars
 
 \* an evaluation is a function of the registry and its own arguments only
 Memoryless == \A i, j \in 1..Len(hist) :
-    (hist[i].op = "evaluate" /\ hist[j].op = "evaluate" /\ hist[i].code = hist[j].code /\ hist[i].R = hist[j].R)
+    (hist[i].op = "evaluate" /\ hist[j].op = "evaluate" /\ hist[i].code = hist[j].code /\ hist[i].lay = hist[j].lay /\ hist[i].R = hist[j].R)
         => hist[i].want = hist[j].want
 \* a history is interesting when the same (type, R) is evaluated under two different generators
 Interesting == \E i, j \in 1..Len(hist) : i < j /\ hist[i].op = "evaluate" /\ hist[j].op = "evaluate"
-                  /\ hist[i].type = hist[j].type /\ hist[i].R = hist[j].R /\ hist[i].code # hist[j].code
-Emitted == [init |-> [t \in Types |-> reg[t]], steps |-> hist]
+                  /\ hist[i].type = hist[j].type /\ hist[i].R = hist[j].R /\ (hist[i].code # hist[j].code \/ hist[i].lay # hist[j].lay)
 EmitInv == (done /\ Interesting) => PrintT(ToJson([steps |-> hist]))
 =============================================================================
